@@ -95,3 +95,26 @@ uint32_t cv_res_tag(const c_result_u64_u32 *r) { return r->tag; }
 uint64_t cv_res_ok(const c_result_u64_u32 *r) { return r->v.ok; }
 uint32_t cv_res_err(const c_result_u64_u32 *r) { return r->v.err; }
 c_option_u64 cv_opt_make(uint32_t tag, uint64_t v) { c_option_u64 o; o.tag = tag; o.value = v; return o; }
+
+/* ---- option / result with payloads narrower than the tag: sizes and offsets as the C declaration has them ---- */
+typedef struct { uint32_t tag; uint8_t value; } c_option_u8;
+typedef struct { uint32_t tag; uint16_t value; } c_option_u16;
+typedef struct { uint32_t tag; union { uint8_t ok; uint16_t err; } v; } c_result_u8_u16;
+size_t cv_sizeof(int which) {
+    switch (which) {
+    case 0: return sizeof(c_option_u8);
+    case 1: return sizeof(c_option_u16);
+    case 2: return sizeof(c_option_u64);
+    case 3: return sizeof(c_result_u8_u16);
+    default: return sizeof(c_result_u64_u32);
+    }
+}
+uint32_t cv_opt8_tag(const c_option_u8 *o) { return o->tag; }
+uint8_t cv_opt8_value(const c_option_u8 *o) { return o->value; }
+uint32_t cv_opt16_tag(const c_option_u16 *o) { return o->tag; }
+uint16_t cv_opt16_value(const c_option_u16 *o) { return o->value; }
+void cv_opt8_fill(c_option_u8 *o, uint32_t tag, uint8_t v) { memset(o, 0x5A, sizeof(*o)); o->tag = tag; o->value = v; }
+void cv_opt16_fill(c_option_u16 *o, uint32_t tag, uint16_t v) { memset(o, 0x5A, sizeof(*o)); o->tag = tag; o->value = v; }
+uint32_t cv_res816_tag(const c_result_u8_u16 *r) { return r->tag; }
+uint8_t cv_res816_ok(const c_result_u8_u16 *r) { return r->v.ok; }
+uint16_t cv_res816_err(const c_result_u8_u16 *r) { return r->v.err; }
